@@ -76,10 +76,15 @@ func (p *Program) defTable() map[types.Object]*defInfo {
 						get(o).count += 2
 					}
 				case *ast.RangeStmt:
+					// the variables of a range clause are set once per iteration (uses are confined to the body)
 					for _, e := range []ast.Expr{x.Key, x.Value} {
 						if e != nil {
 							if o := objOf(info, e); o != nil {
-								get(o).count += 2
+								if x.Tok == token.DEFINE {
+									get(o).count++
+								} else {
+									get(o).count += 2
+								}
 							}
 						}
 					}
@@ -214,7 +219,103 @@ func (p *Program) stableExpr(x ast.Expr, depth int) bool {
 			}
 			return false
 		}
+		// a call of a function that writes nothing, with stable arguments
+		if fn := Callee(info, v); fn != nil && p.pureFunc(fn) {
+			for _, a := range v.Args {
+				if !p.stableExpr(a, depth+1) {
+					return false
+				}
+			}
+			if sel, ok := ast.Unparen(v.Fun).(*ast.SelectorExpr); ok {
+				if _, isSel := info.Selections[sel]; isSel && !p.stableExpr(sel.X, depth+1) {
+					return false
+				}
+			}
+			// the callee must not read mutable state either: fields it reads must be frozen - unless nothing
+			// in the function holding the definition writes to the heap at all
+			if fd := p.FuncAt(v.Pos()); fd != nil && p.quietFunc(fd) {
+				return true
+			}
+			sums := p.Summaries()
+			if sums.ReadsHeap(fn) {
+				return false
+			}
+			for _, f := range sums.ReadsOf(fn) {
+				if !sums.IsFrozen(f) {
+					return false
+				}
+			}
+			return true
+		}
 		return false
+	}
+	return false
+}
+
+// quietFunc: the body stores only into its own local variables and calls only functions that write nothing.
+func (p *Program) quietFunc(fd *ast.FuncDecl) bool {
+	if p.quiet == nil {
+		p.quiet = map[*ast.FuncDecl]bool{}
+	}
+	if v, ok := p.quiet[fd]; ok {
+		return v
+	}
+	info := p.Info
+	ok := true
+	ast.Inspect(fd.Body, func(n ast.Node) bool {
+		switch x := n.(type) {
+		case *ast.AssignStmt:
+			for _, l := range x.Lhs {
+				if _, isId := ast.Unparen(l).(*ast.Ident); !isId {
+					ok = false
+				}
+			}
+		case *ast.IncDecStmt:
+			if _, isId := ast.Unparen(x.X).(*ast.Ident); !isId {
+				ok = false
+			}
+		case *ast.CallExpr:
+			if tv, isT := info.Types[x.Fun]; isT && tv.IsType() {
+				return true
+			}
+			if id, isId := ast.Unparen(x.Fun).(*ast.Ident); isId {
+				if b, isB := info.Uses[id].(*types.Builtin); isB {
+					switch b.Name() {
+					case "len", "cap", "append", "make", "new", "min", "max":
+						return true
+					}
+					ok = false
+					return true
+				}
+			}
+			if fn := Callee(info, x); fn == nil || !p.pureFunc(fn) {
+				ok = false
+			}
+		case *ast.GoStmt, *ast.SendStmt:
+			ok = false
+		}
+		return true
+	})
+	p.quiet[fd] = ok
+	return ok
+}
+
+// pureFunc: a module function that writes nothing (transitively), or a value-only standard-library function.
+func (p *Program) pureFunc(fn *types.Func) bool {
+	sums := p.Summaries()
+	w, ok := sums.Writes[fn]
+	if !ok {
+		w, ok = sums.Writes[fn.Origin()]
+	}
+	if ok {
+		return !w.All && !w.Index && len(w.Fields) == 0 && len(w.Globals) == 0
+	}
+	if fn.Pkg() == nil || fn.Type().(*types.Signature).Recv() != nil {
+		return false
+	}
+	switch fn.Pkg().Path() {
+	case "strings", "unicode", "unicode/utf8", "strconv", "errors":
+		return true
 	}
 	return false
 }
@@ -411,4 +512,182 @@ func (p *Program) normExpr(x ast.Expr) string {
 		return p.normExpr(v.Fun) + "(" + strings.Join(args, ", ") + ")"
 	}
 	return exprStr(x)
+}
+
+// ---- constructor helpers
+//
+// Subst copies x, replacing the variables of env by their expressions. New nodes carry the type information of
+// the nodes they were copied from.
+
+func (p *Program) Subst(x ast.Expr, env map[types.Object]ast.Expr) ast.Expr {
+	if x == nil || len(env) == 0 {
+		return x
+	}
+	info := p.Info
+	keep := func(n, old ast.Expr) ast.Expr {
+		if tv, ok := info.Types[old]; ok {
+			info.Types[n] = tv
+		}
+		return n
+	}
+	switch v := x.(type) {
+	case *ast.Ident:
+		if o := objOf(info, v); o != nil {
+			if r, ok := env[o]; ok {
+				return r
+			}
+		}
+		return v
+	case *ast.ParenExpr:
+		return keep(&ast.ParenExpr{Lparen: v.Lparen, X: p.Subst(v.X, env), Rparen: v.Rparen}, v)
+	case *ast.SelectorExpr:
+		if sel, ok := info.Selections[v]; ok {
+			n := &ast.SelectorExpr{X: p.Subst(v.X, env), Sel: v.Sel}
+			info.Selections[n] = sel
+			return keep(n, v)
+		}
+		return v
+	case *ast.StarExpr:
+		return keep(&ast.StarExpr{Star: v.Star, X: p.Subst(v.X, env)}, v)
+	case *ast.UnaryExpr:
+		return keep(&ast.UnaryExpr{OpPos: v.OpPos, Op: v.Op, X: p.Subst(v.X, env)}, v)
+	case *ast.BinaryExpr:
+		return keep(&ast.BinaryExpr{X: p.Subst(v.X, env), OpPos: v.OpPos, Op: v.Op, Y: p.Subst(v.Y, env)}, v)
+	case *ast.IndexExpr:
+		return keep(&ast.IndexExpr{X: p.Subst(v.X, env), Lbrack: v.Lbrack, Index: p.Subst(v.Index, env), Rbrack: v.Rbrack}, v)
+	case *ast.SliceExpr:
+		return keep(&ast.SliceExpr{X: p.Subst(v.X, env), Lbrack: v.Lbrack, Low: p.Subst(v.Low, env), High: p.Subst(v.High, env), Max: p.Subst(v.Max, env), Slice3: v.Slice3, Rbrack: v.Rbrack}, v)
+	case *ast.KeyValueExpr:
+		return &ast.KeyValueExpr{Key: v.Key, Colon: v.Colon, Value: p.Subst(v.Value, env)}
+	case *ast.CompositeLit:
+		n := &ast.CompositeLit{Type: v.Type, Lbrace: v.Lbrace, Rbrace: v.Rbrace, Incomplete: v.Incomplete}
+		for _, el := range v.Elts {
+			n.Elts = append(n.Elts, p.Subst(el, env))
+		}
+		return keep(n, v)
+	case *ast.CallExpr:
+		n := &ast.CallExpr{Fun: v.Fun, Lparen: v.Lparen, Ellipsis: v.Ellipsis, Rparen: v.Rparen}
+		if sel, ok := v.Fun.(*ast.SelectorExpr); ok {
+			if _, isSel := info.Selections[sel]; isSel {
+				n.Fun = p.Subst(sel, env)
+			}
+		}
+		for _, a := range v.Args {
+			n.Args = append(n.Args, p.Subst(a, env))
+		}
+		return keep(n, v)
+	case *ast.TypeAssertExpr:
+		return keep(&ast.TypeAssertExpr{X: p.Subst(v.X, env), Lparen: v.Lparen, Type: v.Type, Rparen: v.Rparen}, v)
+	}
+	return x
+}
+
+// ExpandCall: the value of a call to a module helper that does nothing but build and return one expression
+// (`func h(a, b) T { tmp := ...; return &T{...a...tmp...} }`), with the parameters replaced by the arguments.
+// Returns nil if the callee is not of that shape.
+func (p *Program) ExpandCall(call *ast.CallExpr) ast.Expr { return p.expandCall(call, 0) }
+
+func (p *Program) expandCall(call *ast.CallExpr, depth int) ast.Expr {
+	if depth > 4 {
+		return nil
+	}
+	info := p.Info
+	fn := Callee(info, call)
+	decl, _ := p.DeclOf(fn)
+	if decl == nil || decl.Body == nil {
+		return nil
+	}
+	sig := fn.Type().(*types.Signature)
+	if sig.Variadic() || sig.Results().Len() != 1 || sig.Params().Len() != len(call.Args) {
+		return nil
+	}
+	// body: single-assignment temporaries, then one return
+	var ret *ast.ReturnStmt
+	for i, s := range decl.Body.List {
+		switch v := s.(type) {
+		case *ast.AssignStmt:
+			if v.Tok != token.DEFINE {
+				return nil
+			}
+			for _, l := range v.Lhs {
+				if p.DefOf(l) == nil {
+					return nil
+				}
+			}
+		case *ast.ReturnStmt:
+			if i != len(decl.Body.List)-1 || len(v.Results) != 1 {
+				return nil
+			}
+			ret = v
+		default:
+			return nil
+		}
+	}
+	if ret == nil {
+		return nil
+	}
+	env := map[types.Object]ast.Expr{}
+	i := 0
+	for _, f := range decl.Type.Params.List {
+		for _, n := range f.Names {
+			if o := info.Defs[n]; o != nil {
+				if !p.neverReassigned(o) {
+					return nil
+				}
+				env[o] = call.Args[i]
+			}
+			i++
+		}
+		if len(f.Names) == 0 {
+			i++
+		}
+	}
+	if decl.Recv != nil && len(decl.Recv.List) == 1 && len(decl.Recv.List[0].Names) == 1 {
+		if sel, ok := ast.Unparen(call.Fun).(*ast.SelectorExpr); ok {
+			if o := info.Defs[decl.Recv.List[0].Names[0]]; o != nil {
+				env[o] = sel.X
+			}
+		}
+	}
+	body := p.ResolveDeepAll(ret.Results[0])
+	return p.Subst(body, env)
+}
+
+// ResolveDeepAll is ResolveDeep that also descends into composite literals, address-of and call arguments.
+func (p *Program) ResolveDeepAll(x ast.Expr) ast.Expr {
+	env := map[types.Object]ast.Expr{}
+	ast.Inspect(x, func(n ast.Node) bool {
+		if id, ok := n.(*ast.Ident); ok {
+			if o := objOf(p.Info, id); o != nil {
+				if _, done := env[o]; !done {
+					if d := p.DefOf(id); d != nil {
+						env[o] = p.ResolveDeepAll(d)
+					}
+				}
+			}
+		}
+		return true
+	})
+	return p.Subst(x, env)
+}
+
+// Constructed looks through names and constructor helpers: the composite literal (or other expression) that x
+// evaluates to, if that can be told statically.
+func (p *Program) Constructed(x ast.Expr) ast.Expr {
+	for i := 0; i < 6; i++ {
+		x = p.Resolve(x)
+		switch v := x.(type) {
+		case *ast.UnaryExpr:
+			if v.Op == token.AND {
+				return x
+			}
+		case *ast.CallExpr:
+			if ex := p.ExpandCall(v); ex != nil {
+				x = ex
+				continue
+			}
+		}
+		return x
+	}
+	return x
 }
